@@ -115,7 +115,8 @@ def install() -> None:
         await orig_release(self, run_id)
         if run is not None:
             run.marks.append({"kind": "release", "t": asyncio.get_event_loop().time(), "idx": len(run.trace.calls),
-                              "released": was and run_id not in self._active_run_ids})
+                              "released": was and run_id not in self._active_run_ids,
+                              "live_after": run_id in self._active_run_ids})
 
     async def write(self: Any, event: Any) -> None:
         run = _cur()
@@ -325,6 +326,16 @@ def _replay_oracle(calls: list, start: int) -> str:
     return oracle_tokens(log)
 
 
+_R_SECTION = __import__("re").compile(r" R \d+(?: \d+ \d+)* S ")
+
+
+def norm_rshow(line: str) -> str:
+    """at a quiescent point the control loop sits inside `wait_for_next_task`: workers it has just handed to the
+    adapter are in neither `_pending_workers` nor `_task_keys` yet, so the worker list cannot be observed there
+    (it is compared at every tick instead)"""
+    return _R_SECTION.sub(" R * S ", line, count=1)
+
+
 def model_lines(tr: STrace) -> tuple[list[str], list[str]]:
     calls = tr.trace.calls
     ops: list[str] = []
@@ -370,7 +381,7 @@ def model_lines(tr: STrace) -> tuple[list[str], list[str]]:
             if ab is not None:
                 ops.append("timers"); outs.append(enc.lst([h[5] for h in ab["heap"] if h[1] in ("retry", "wtimeout")]))
             ops.append(f"release {enc.num(m['t'])}"); outs.append("ok")
-            ops.append("islive"); outs.append("0" if m["released"] else "1")
+            ops.append("islive"); outs.append("1" if m["live_after"] else "0")
         elif kind == "crash":
             if m["was_live"]:
                 ops.append("timers"); outs.append(enc.lst([h[5] for h in m["heap"] if h[1] in ("retry", "wtimeout")]))
@@ -385,7 +396,7 @@ def model_lines(tr: STrace) -> tuple[list[str], list[str]]:
             ops.append("hstate")
             outs.append("status=%s idle=%s live=%d loads=%d err=_" % (row["status"], enc.num(row["idle"]), 1 if m["live"] else 0, m["inits"]))
             if m["snap"] is not None:
-                ops.append("rshow"); outs.append(m["snap"])
+                ops.append("rshow"); outs.append(norm_rshow(m["snap"]))
             elif not m["live"]:
                 ops.append("rshow"); outs.append("not-live")
 
@@ -416,3 +427,133 @@ def model_lines(tr: STrace) -> tuple[list[str], list[str]]:
     if "persisted" in tr.final:
         ops.append("persisted"); outs.append(enc.lst(tr.final["persisted"]))
     return ops, outs
+
+
+# --------------------------------------------------------------------------
+# (S) model-independent monitors
+
+
+@dataclass
+class Expect:
+    """a timer the run is entitled to: derived from what the step side / retry policy asked for"""
+    kind: str  # "retry" | "waiter_timeout"
+    step: str
+    ident: Any  # event uid (retry) / waiter id (waiter timeout)
+    attempts: int | None
+    created_idx: int
+    created_t: float
+    due: float
+    delivered_idx: int | None = None
+    delivered_t: float | None = None
+    moot_idx: int | None = None
+    moot: str | None = None
+    effect_t: float | None = None
+
+
+def expectations(tr: STrace) -> tuple[list[Expect], list[dict]]:
+    """(expected timers, spurious timer ticks).  A retry is expected when the step's retry policy answered with a
+    positive delay; a waiter timeout when a step's wait_for_event(timeout=T) registered a *new* waiter.  Delivery =
+    the control loop (of any incarnation) processes the corresponding tick."""
+    exps: list[Expect] = []
+    spurious: list[dict] = []
+    for k, c in enumerate(tr.trace.calls):
+        if c.caller != "_process_tick" or c.error is not None:
+            continue
+        tk = c.tick
+        if isinstance(tk, T.TickStepResult):
+            for r in tk.result:
+                if isinstance(r, R.StepWorkerFailed):
+                    for (stp, _el, att, _err, d) in c.oracle:
+                        if stp == tk.step_name and d not in (None, "RAISE") and d >= 0:
+                            exps.append(Expect("retry", tk.step_name, getattr(tk.event, "uid", None), att, k, c.now, c.now + d))
+                elif isinstance(r, R.AddWaiter) and r.timeout is not None:
+                    present = any(w.waiter_id == r.waiter_id for w in c.before.workers[tk.step_name].collected_waiters)
+                    if not present:
+                        exps.append(Expect("waiter_timeout", tk.step_name, r.waiter_id, None, k, c.now, c.now + r.timeout))
+        elif isinstance(tk, T.TickAddEvent) and tk.attempts and tk.step_name is not None:
+            e = next((x for x in exps if x.kind == "retry" and x.delivered_idx is None and x.step == tk.step_name
+                      and x.ident == getattr(tk.event, "uid", None) and x.attempts == tk.attempts), None)
+            if e is None:
+                spurious.append({"kind": "retry", "step": tk.step_name, "uid": getattr(tk.event, "uid", None), "attempts": tk.attempts, "t": c.now})
+            else:
+                e.delivered_idx, e.delivered_t = k, c.now
+        elif isinstance(tk, T.TickWaiterTimeout):
+            e = next((x for x in exps if x.kind == "waiter_timeout" and x.delivered_idx is None and x.step == tk.step_name
+                      and x.ident == tk.waiter_id), None)
+            if e is None:
+                spurious.append({"kind": "waiter_timeout", "step": tk.step_name, "waiter": tk.waiter_id, "t": c.now})
+            else:
+                e.delivered_idx, e.delivered_t = k, c.now
+        # expectations that no longer apply
+        ended = (c.after is not None and not c.after.is_running) or any(C.indicates_exit(x) for x in c.cmds)
+        for e in exps:
+            if e.delivered_idx is not None or e.moot is not None:
+                continue
+            if ended:
+                e.moot, e.moot_idx = "run ended", k
+            elif e.kind == "waiter_timeout" and c.after is not None:
+                w = next((w for w in c.after.workers[e.step].collected_waiters if w.waiter_id == e.ident), None)
+                if w is None:
+                    e.moot, e.moot_idx = "waiter gone", k
+                elif w.resolved_event is not None:
+                    e.moot, e.moot_idx = "waiter resolved", k
+    for e in exps:
+        if e.delivered_t is None:
+            continue
+        if e.kind == "retry":
+            hit = next((s for s in tr.trace.steps if s[0] == "enter" and s[1] == e.step and s[2] == e.ident and s[3] == e.attempts
+                        and s[4] >= e.delivered_t - EPS), None)
+        else:
+            hit = next((s for s in tr.trace.steps if s[0] == "wait_timeout" and s[1] == e.step and s[5].get("wid") == e.ident
+                        and s[4] >= e.delivered_t - EPS), None)
+        e.effect_t = None if hit is None else hit[4]
+    return exps, spurious
+
+
+def cuts(tr: STrace) -> list[dict]:
+    out = []
+    for m in tr.marks:
+        if m["kind"] == "abort":
+            out.append({"kind": "idle_release", "idx": m["idx"], "t": m["t"], "heap": m["heap"]})
+        elif m["kind"] == "crash" and m["was_live"]:
+            out.append({"kind": "restart", "idx": m["idx"], "t": m["t"], "heap": m["heap"]})
+    return out
+
+
+def mon_timers(tr: STrace, case: Any) -> list[Violation]:
+    """every pending retry / waiter timeout takes effect, on time, whether or not the run left memory in between"""
+    vs: list[Violation] = []
+    exps, spurious = expectations(tr)
+    cs = cuts(tr)
+    status = tr.final.get("status")
+    t_end = tr.final.get("t0", 0.0) + tr.final.get("t", 0.0)
+    last_idx = len(tr.trace.calls)
+    for e in exps:
+        upto = e.delivered_idx if e.delivered_idx is not None else (e.moot_idx if e.moot_idx is not None else last_idx)
+        while_pending = [c for c in cs if e.created_idx < c["idx"] <= upto]
+        where = ("after_" + while_pending[0]["kind"]) if while_pending else "no_release"
+        desc = (f"{e.kind} of step {e.step} ({'event uid' if e.kind == 'retry' else 'waiter'} {e.ident}"
+                f"{', attempt ' + str(e.attempts) if e.attempts is not None else ''}) scheduled at t={e.created_t:g} for t={e.due:g}")
+        ctx = "; ".join(f"{c['kind']} at t={c['t']:g} with heap {[h[:5] for h in c['heap']]}" for c in while_pending)
+        if e.delivered_t is None:
+            if e.moot is not None:
+                continue
+            if status in TERMINAL:
+                continue
+            if t_end < e.due - EPS:
+                continue  # the observation window ended before the timer was due
+            vs.append(Violation(f"C14/{e.kind}_lost_{where}",
+                                f"{desc} never fired: at t={t_end:g} ({tr.end}) the handler is '{status}', in memory: {tr.final.get('live')}; {ctx or 'the run never left memory'}",
+                                case))
+            continue
+        if e.delivered_t < e.due - EPS:
+            vs.append(Violation(f"C14/{e.kind}_early_{where}", f"{desc} fired at t={e.delivered_t:g}; {ctx}", case))
+        elif e.delivered_t > e.due + EPS:
+            vs.append(Violation(f"C14/{e.kind}_late_{where}", f"{desc} fired at t={e.delivered_t:g}; {ctx}", case))
+        if e.effect_t is None and status not in TERMINAL and tr.end in ("stuck", "plan-done") \
+                and not any(c["idx"] > e.delivered_idx for c in cs):
+            what = "the step was not executed again" if e.kind == "retry" else "the waiting step never got its TimeoutError"
+            vs.append(Violation(f"C14/{e.kind}_no_effect_{where}", f"{desc} fired at t={e.delivered_t:g} but {what}; {ctx}", case))
+    for sp in spurious:
+        vs.append(Violation(f"C14/spurious_{sp['kind']}_tick", f"the control loop processed a timer tick nobody scheduled: {sp}", case))
+    return vs
